@@ -195,24 +195,7 @@ def run(ctx):
     else:
         r.fail("C12.validate", rc.key + ":deprecated-raises", "configuring a deprecated rule no longer raises ConfigurationError", rc.loc())
     va = p.function("vsg.rule_list:rule_list._validate_configuration_rule_exists")
-    vr = [n for n in walk_function(va.node) if isinstance(n, ast.Raise) and "ConfigurationError" in norm(n.exc)]
-    if vr:
-        vf = Facts(va.node)
-        c = dict(vf.conds_at(vr[0]))
-        if any(v and "rule_does_not_exist_in_list" in k for k, v in c.items()) and vf.in_loop(vr[0]):
-            r.ok("C12.validate", va.key, "for every name under `rule`: unknown -> ConfigurationError")
-        else:
-            r.fail("C12.validate", va.key, "the unknown-rule error is not raised for every unknown name", va.loc(vr[0]))
-    else:
-        r.fail("C12.validate", va.key, "unknown rule names are ignored", va.loc())
-    rd2 = p.function("vsg.rule_list:rule_does_not_exist_in_list")
-    rets = [n for n in walk_function(rd2.node) if isinstance(n, ast.Return)]
-    tests = [norm(n.test) for n in walk_function(rd2.node) if isinstance(n, ast.If)]
-    allowed = {"is_global_configuration(sRule)", "is_group_configuration(sRule)", "sRule not in lRuleNames"}
-    if set(tests) == allowed:
-        r.ok("C12.validate", rd2.key, "only `global` and `group` are exempt from the existence test")
-    else:
-        r.fail("C12.validate", rd2.key, "existence test changed: tests are %s" % sorted(tests), rd2.loc())
+    _validate_exists(r, p, va)
     # deprecated branch of Rule.configure
     dep = [n for n in walk_function(conf.node) if isinstance(n, ast.If) and "self.deprecated" in norm(n.test)]
     if dep and dep[0].body and isinstance(dep[0].body[0], ast.Return) and "print_output" in norm(dep[0].body[0].value) and "self.unique_id in" in norm(dep[0].test):
@@ -225,6 +208,58 @@ def run(ctx):
     _siblings(r, p)
     _effective(r, p, rt)
     return r
+
+
+def _validate_exists(r, p, va):
+    """Every name under `rule` other than the pseudo names global/group must exist, or ConfigurationError is raised.
+    Shape: a loop over the rule section that is never left early, a raise inside it, and - looking through the
+    module-level predicate helpers it calls - exemption tests whose only string constants are 'global' and 'group'
+    plus one membership test against the rule names."""
+    loops = [n for n in walk_function(va.node) if isinstance(n, ast.For) and "['rule']" in norm(n.iter).replace('"', "'")]
+    if not loops:
+        r.fail("C12.validate", va.key + ":loop", "the validator no longer iterates over the `rule` section of the configuration", va.loc())
+        return
+    loop = loops[0]
+    ok = True
+    for n in ast.walk(loop):
+        if isinstance(n, (ast.Return, ast.Break)):
+            ok = False
+            r.fail("C12.validate", va.key + ":early-exit", "validation of rule names stops early (`%s` inside the loop over the rule section): names listed after that point are never checked, so a misspelt rule is silently accepted" % norm(n), va.loc(n))
+    raises = [n for n in ast.walk(loop) if isinstance(n, ast.Raise) and n.exc is not None and "ConfigurationError" in norm(n.exc)]
+    if not raises:
+        ok = False
+        r.fail("C12.validate", va.key, "unknown rule names are ignored (no ConfigurationError raised inside the loop)", va.loc())
+    # gather the tests that decide, looking through module-level helpers (depth 3)
+    consts = set()
+    member = []
+    seen = set()
+
+    def gather(fi, node, depth):
+        for n in ast.walk(node):
+            if isinstance(n, ast.Compare):
+                for c in [n.left] + list(n.comparators):
+                    if isinstance(c, ast.Constant) and isinstance(c.value, str):
+                        consts.add(c.value)
+                if any(isinstance(op, (ast.In, ast.NotIn)) for op in n.ops):
+                    member.append(norm(n))
+            if isinstance(n, ast.Call) and isinstance(n.func, ast.Name) and depth < 3:
+                ent = p.resolve_expr(fi.module, n.func)
+                if ent and ent[0] == "func" and ent[1].key not in seen and ent[1].module is fi.module:
+                    seen.add(ent[1].key)
+                    gather(ent[1], ent[1].node, depth + 1)
+
+    for n in ast.walk(loop):
+        if isinstance(n, ast.If):
+            gather(va, n.test, 0)
+    extra = consts - {"global", "group"}
+    if extra:
+        ok = False
+        r.fail("C12.validate", va.key + ":exemptions", "names exempt from the existence test are no longer only `global` and `group`: %s" % sorted(consts), va.loc())
+    if not any("not in" in m or " in " in m for m in member):
+        ok = False
+        r.fail("C12.validate", va.key + ":membership", "no membership test of the configured name against the loaded rule names", va.loc())
+    if ok:
+        r.ok("C12.validate", va.key, "every name under `rule` except global/group is tested against the loaded rule names; unknown -> ConfigurationError; the loop is never left early (tests: %s)" % "; ".join(sorted(set(member))[:2]))
 
 
 def _typestate(r, p, reach):
@@ -441,6 +476,12 @@ VARIANTS = [
     Variant("C12", "only the first matching group is applied", "fire",
             [("vsg/rule.py", "            if sGroupName in self.groups:\n                configure_attribute(self, oConfig, sGroupName)\n", "            if sGroupName in self.groups:\n                configure_attribute(self, oConfig, sGroupName)\n                break\n")],
             rule="C12.siblings", key="early-exit"),
+    Variant("C12", "unknown-rule validation stops at the first global key", "fire",
+            [("vsg/rule_list.py", "            if rule_does_not_exist_in_list(sRule, lRuleNames):\n", "            if is_global_configuration(sRule) or is_group_configuration(sRule):\n                return\n            if sRule not in lRuleNames:\n")], rule="C12.validate", key="early-exit"),
+    Variant("C12", "a third pseudo name is exempt from the existence test", "fire",
+            [("vsg/rule_list.py", "    if is_group_configuration(sRule):\n        return False\n", "    if is_group_configuration(sRule) or sRule == \"default\":\n        return False\n")], rule="C12.validate", key="exemptions"),
+    Variant("C12", "twin: existence helper inlined with continue", "silent",
+            [("vsg/rule_list.py", "            if rule_does_not_exist_in_list(sRule, lRuleNames):\n", "            if is_global_configuration(sRule) or is_group_configuration(sRule):\n                continue\n            if sRule not in lRuleNames:\n")]),
     Variant("C12", "twin: reorder independent per-file helpers definition", "silent",
             [("vsg/apply_rules.py", "    sFileName = sFileName.replace(os.sep, \"/\")\n\n    configure_rules_per_rule_option", "    sFileName = sFileName.replace(os.sep, \"/\")\n    configure_rules_per_rule_option")]),
 ]
